@@ -110,6 +110,10 @@ def tool_case(args):
                 an.append(("fix-off", "fix=false reported REPAIR-tier entries"))
             if c0 != plain:
                 an.append(("fix-off", "fix=false canonical differs from plain canonicalisation of the input"))
+            for prof in ("STRICT", "LENIENT", "ULTRA"):
+                rp = H.run_validate_tool(content=text, schema=name, fix=False, profile=prof)
+                if rp.get("status") == "success" and (rp.get("canonical") != plain or _repair_entries(rp.get("repairs"))):
+                    an.append(("fix-off", f"fix=false, profile={prof}: values were repaired"))
             r2 = H.run_validate_tool(content=c1, schema=name, fix=True)
             c2, log2 = r2.get("canonical"), _repair_entries(r2.get("repairs"))
         elif entry == "write":
